@@ -74,7 +74,7 @@ def _vs1d(cfg, B):
     model2 = fd.euler.euler2d(gamma=g)
     model1 = fd.euler.euler1d(gamma=g)
     lx, ly = B.pos('lx', 0.5, 3.0), B.pos('ly', 0.5, 3.0)
-    mesh2 = fd.mesh2d.mesh2d(nx, ny, lx, ly)
+    mesh2 = cm.mesh2d(B, fd, nx, ny, lx, ly)
     L1 = lx if axis == 'x' else ly
     mesh1 = fd.mesh.unimesh(ncell=m, length=L1)
     rho1, u1, p1, c1 = cm.euler_prim(B, 'w', g, m)
@@ -136,7 +136,7 @@ def _bcset(B, cfg):
 
 def _run2d(B, fd, cfg, nx, ny, lx, ly, rho, V, p, bclist, kap):
     model = fd.euler.euler2d(gamma=B.const(cfg['gamma']))
-    mesh = fd.mesh2d.mesh2d(nx, ny, lx, ly)
+    mesh = cm.mesh2d(B, fd, nx, ny, lx, ly)
     rhs = fd.modeldisc.fvm2dcart(model, mesh, _num2d(B, fd, cfg, kap), bclist, numflux=cfg['flux'])
     R = rhs.rhs(fd.field.fdata(model, mesh, model.prim2cons([rho, V, p])))
     return [R[0].copy(), R[1].copy(), R[2].copy()]
